@@ -228,6 +228,10 @@ class WorkersJoined(Exception):
 def soft_timeout_sighandler(signum, frame):
     raise SoftTimeLimitExceeded()
 
+
+def _exit_on_signal(signum, frame):
+    raise SystemExit()
+
 #
 # Code run by worker processes
 #
@@ -306,6 +310,13 @@ class Worker:
 
         if sys.platform != 'win32':
             try:
+                # The parent answers the DEATH message with TERM_SIGNAL.  If
+                # this worker is exiting because it already got that signal
+                # its handler was reset to the default action, which could
+                # kill it right here while it still holds the result queue's
+                # write lock (blocking every other worker forever): take the
+                # signal as an exception instead, so that the lock is released.
+                common.maybe_setsignal(TERM_SIGNAL, _exit_on_signal)
                 self.outq.put((DEATH, (pid, exitcode)))
                 time.sleep(1)
             finally:
